@@ -456,7 +456,7 @@ func (c *ExecCtx) runDefers(st *State) []*State {
 				continue
 			}
 			s.defers = s.defers[: n-1 : n-1]
-			sub := &ExecCtx{u: c.u, info: d.info, pkg: d.pkg, fn: c.fn, depth: c.depth, parent: c.parent, oldState: c.oldState, spec: c.spec, results: c.results, binds: c.binds}
+			sub := &ExecCtx{u: c.u, info: d.info, pkg: d.pkg, fn: c.fn, depth: c.depth, parent: c.parent, oldState: c.oldState, spec: c.spec, results: c.results, binds: c.binds, inDefer: true}
 			if d.lit != nil {
 				sub2 := &ExecCtx{u: c.u, info: d.info, pkg: d.pkg, fn: c.fn, depth: c.depth + 1, parent: c, oldState: c.oldState, lit: d.lit}
 				_ = sub2
